@@ -281,6 +281,15 @@ func runC16(tb stat.TB, c c16Case) {
 					}
 				}
 				parked = append(parked, r)
+				if c.ShortTimeout {
+					// let the request time out at the RPC level while its backend call stays parked:
+					// the update must still wait for the backend work (drain), not for HandleCall
+					select {
+					case <-r.done:
+						logf("g%d timed out in HandleCall, backend call still parked", r.id)
+					case <-time.After(3 * time.Second):
+					}
+				}
 			case <-r.done:
 				// not admitted: refused, denied or ROFS
 				r.open = true
